@@ -22,7 +22,7 @@ def pmeta(d):
 
 
 def file_case(fa, cid, raw, records, codec="null", interval=16000, level=None, meta=None, sync=b"", parsed_form=False,
-              kind_out="bytesio", kind_in="bytesio", tmpdir=None, append_at=None, codec2="null"):
+              kind_out="bytesio", kind_in="bytesio", tmpdir=None, append_at=None, codec2="null", session=None):
     case = {"id": cid, "op": "file_rt", "schema": proj.pj(raw), "records": [proj.pv(r) for r in records], "codec": proj.cps(codec),
             "interval": interval, "level": -1 if level is None else level,
             "meta": pmeta({k: v for k, v in (meta or {}).items() if not k.startswith("avro.")}), "sync": list(sync),
@@ -44,6 +44,35 @@ def file_case(fa, cid, raw, records, codec="null", interval=16000, level=None, m
             fa.writer(fo, schema, records, **kw)
             data = fo.getdata()
             case["calls_out"] = sorted(set(fo.log))
+        elif session is not None:
+            # the Writer object used directly, as an application that survives bad records would: writes that fail after part of the
+            # record was encoded are swallowed, whole blocks of a donor file are copied after the application looked into them, flushes
+            # come in between. `records` are the records that were submitted successfully, in order.
+            from fastavro.write import Writer
+            case["session"] = [st[0] for st in session]
+            fo = io.BytesIO()
+            w = Writer(fo, schema, codec=codec, sync_interval=interval, metadata=kw["metadata"], sync_marker=sync,
+                       compression_level=level)
+            for st in session:
+                if st[0] == "good":
+                    w.write(st[1])
+                elif st[0] == "bad":
+                    try:
+                        w.write(st[1])
+                        raise AssertionError("the bad record was accepted")
+                    except AssertionError:
+                        raise
+                    except Exception:  # noqa: BLE001
+                        pass
+                elif st[0] == "flush":
+                    w.flush()
+                elif st[0] == "wblock":
+                    for blk in fa.block_reader(io.BytesIO(st[1])):
+                        if st[2]:
+                            list(blk)              # the application looks at the records before copying the block
+                        w.write_block(blk)
+            w.flush()
+            data = fo.getvalue()
         elif append_at is not None:
             # the file is written by one writer() call and extended by a second one (append mode: the stream is positioned at its end);
             # the second call names another codec, the header's one governs
@@ -116,6 +145,46 @@ def file_case(fa, cid, raw, records, codec="null", interval=16000, level=None, m
     return case
 
 
+class _Unwritable:
+    """A field value no writer accepts."""
+
+
+def make_session(fa, rnd, g, ir, raw, records, codecs):
+    """A plan for a Writer-object session over the given conforming records: good writes, writes that fail on their LAST field (after the
+    earlier fields were encoded), flushes, and copies of whole blocks of a donor file (optionally iterated first)."""
+    last = ir["fields"][-1]["name"]
+    lt = g.resolve(ir["fields"][-1]["type"])
+    if lt["k"] == "prim" and lt["name"] == "null":
+        return None              # a null field is written whatever the value
+    plan = []
+    for r in records:
+        x = rnd.random()
+        if x < 0.3 and isinstance(r, dict):
+            # half of the time the record that fails is the longest one and the next good one the shortest, flushed at once
+            # (what is left of the failed record must not survive in the block)
+            base = max(records, key=lambda q: len(repr(q))) if rnd.random() < 0.5 else r
+            bad = dict(base)
+            bad[last] = _Unwritable()
+            plan.append(("bad", bad))
+            if rnd.random() < 0.5:
+                plan.append(("good", min(records, key=lambda q: len(repr(q)))))
+                plan.append(("flush",))
+        if x > 0.85:
+            plan.append(("flush",))
+        plan.append(("good", r))
+        if rnd.random() < 0.15:
+            try:
+                sub = [rnd.choice(records) for _ in range(rnd.choice([1, 2, 3]))]
+                fo = io.BytesIO()
+                fa.writer(fo, raw, sub, codec=rnd.choice(codecs), sync_interval=rnd.choice([1, 100000]))
+                plan.append(("wblock", fo.getvalue(), rnd.random() < 0.6, sub))
+            except Exception:  # noqa: BLE001
+                pass
+    if not any(st[0] in ("bad", "wblock") for st in plan):
+        return None
+    return plan
+
+
 def make_cases(ctx, fa, n, label="f"):
     rnd = ctx.sub_rnd(label)
     codecs = available_codecs(fa)
@@ -154,11 +223,17 @@ def make_cases(ctx, fa, n, label="f"):
         kind_out = rnd.choice(["bytesio", "bytesio", "pipe", "file"])
         kind_in = rnd.choice(["bytesio", "seq", "seq", "file"]) if kind_out == "file" else rnd.choice(["bytesio", "seq"])
         append_at = None
+        session = None
         if kind_out in ("bytesio", "file") and nrec >= 1 and rnd.random() < 0.2:
             append_at = rnd.randint(0, nrec)
+        elif ir["k"] == "record" and len(ir["fields"]) >= 2 and 1 <= nrec <= 20 and rnd.random() < 0.35:
+            session = make_session(fa, rnd, g, ir, raw, records, codecs)
+            if session is not None:
+                kind_out = "bytesio"
+                records = [r for st in session for r in (st[3] if st[0] == "wblock" else [st[1]] if st[0] == "good" else [])]
         c = file_case(fa, "%s%d" % (label, len(cases)), raw, records, codec=codec, interval=interval, level=level, meta=meta, sync=sync,
                       parsed_form=rnd.random() < 0.4, kind_out=kind_out, kind_in=kind_in, tmpdir=tmp, append_at=append_at,
-                      codec2=rnd.choice(codecs))
+                      codec2=rnd.choice(codecs), session=session)
         c["nrec"] = nrec
         cases.append(c)
     try:
@@ -188,6 +263,7 @@ def run(ctx, fa, own):
     core.judge_cases(ctx, cases, "files", own, nontrivial_fn=nontrivial, describe=describe)
     ctx.extra["files_with_2plus_blocks"] = sum(1 for c in cases if len(c.get("walk", [])) >= 2)
     ctx.extra["files_by_codec"] = {k: sum(1 for c in cases if proj.uncps(c["codec"]) == k) for k in ctx.extra["codecs"]}
+    ctx.extra["writer_object_sessions"] = sum(1 for c in cases if "session" in c)
     ctx.extra["files_extended_in_append_mode"] = sum(1 for c in cases if "append_at" in c)
     ctx.extra["pipe_outputs"] = sum(1 for c in cases if c["kind_out"] == "pipe")
     ctx.extra["seq_inputs"] = sum(1 for c in cases if c["kind_in"] == "seq")
